@@ -3,6 +3,8 @@
 -/
 import AM.Lemmas.GroupMapStep
 
+set_option linter.unusedSimpArgs false
+
 namespace AM.GroupMap
 open AM AM.AList
 
@@ -186,5 +188,173 @@ theorem inv_stepThr {s s' : State} {t : Nat} {T : Thr} (hinv : Inv s) (hl : look
       · exact hT.el_dead hld (Or.inr (Or.inr (Or.inr hpc)))
       · simp at hc
   | done => simp [hpc] at hs
+
+/-- assembling `Inv` after an environment action (flush, maintenance): thread records untouched -/
+theorem inv_of_env {s s' : State} (hinv : Inv s) (hthrs : s'.thrs = s.thrs)
+    (hle : GrpsLe s s') (hpriv : PrivKept none s s')
+    (hfresh : ∀ g G, lookup s'.grps g = some G → g < s'.next)
+    (horph : ∀ g G, lookup s'.grps g = some G → G.published = true → G.destroyed = false → lookup s'.map G.fp = some g)
+    (hmap : ∀ fp g, lookup s'.map fp = some g → ∃ G, lookup s'.grps g = some G ∧ G.fp = fp ∧ G.published = true)
+    (hmd : (s'.mpc = .stop ∨ s'.mpc = .cad) → ∃ G, lookup s'.grps s'.mg = some G ∧ G.destroyed = true)
+    (hmp : s'.mpc ≠ .idle → ∃ G, lookup s'.grps s'.mg = some G ∧ G.published = true) : Inv s' := by
+  refine ⟨hfresh, horph, hmap, ?_, hmd, hmp⟩
+  intro t T hl
+  rw [hthrs] at hl
+  exact thrOK_frame (hinv.thr t T hl) hle (fun g G hg hp _ => hpriv g G hg hp (by simp))
+
+/-- an action that only moves the maintenance program counter -/
+theorem inv_mpc_only {s : State} (hinv : Inv s) (mpc : MPC) (mg : Nat)
+    (hmd : (mpc = .stop ∨ mpc = .cad) → ∃ G, lookup s.grps mg = some G ∧ G.destroyed = true)
+    (hmp : mpc ≠ .idle → ∃ G, lookup s.grps mg = some G ∧ G.published = true) :
+    Inv { s with mpc := mpc, mg := mg } :=
+  inv_of_env hinv rfl (grpsLe_refl _ _ rfl) (privKept_refl _ _ _ rfl) hinv.fresh hinv.orph hinv.mapok hmd hmp
+
+theorem inv_flush {s : State} {g : Nat} {G : Grp} (hinv : Inv s) (hG : lookup s.grps g = some G)
+    (hp : G.published = true) (del : List Nat) : Inv (setGrp s g (flushGrp G del)) := by
+  have hle : GrpLe G (flushGrp G del) :=
+    ⟨rfl, rfl, fun h => by simp [flushGrp, h], id, fun h => by rw [hp] at h; cases h⟩
+  have hgl := grpsLe_put (s := s) (s' := setGrp s g (flushGrp G del)) rfl hG hle
+  refine inv_of_env hinv rfl hgl
+    (privKept_put rfl (fun X hX => by rw [hG] at hX; cases hX; exact Or.inl hp)) (fresh_put_old hinv hG) ?_ ?_ ?_ ?_
+  · intro x X hx hpx hnd
+    simp only [setGrp_grps, lookup_put] at hx
+    simp only [setGrp_map]
+    by_cases e : g = x
+    · subst e; simp at hx; subst hx
+      have hnd' : G.destroyed = false := by
+        cases h : G.destroyed with
+        | false => rfl
+        | true => simp [flushGrp, h] at hnd
+      exact hinv.orph g G hG hp hnd'
+    · simp [e] at hx; exact hinv.orph x X hx hpx hnd
+  · intro fp x hx
+    obtain ⟨X, hX, hfp, hpX⟩ := hinv.mapok fp x hx
+    obtain ⟨X', hX', hl⟩ := hgl x X hX
+    exact ⟨X', hX', by rw [hl.1, hfp], hl.2.2.2.1 hpX⟩
+  · intro hc
+    obtain ⟨X, hX, hd⟩ := hinv.mnt_dead hc
+    obtain ⟨X', hX', hl⟩ := hgl _ X hX
+    exact ⟨X', hX', hl.2.2.1 hd⟩
+  · intro hc
+    obtain ⟨X, hX, hd⟩ := hinv.mnt_pub hc
+    obtain ⟨X', hX', hl⟩ := hgl _ X hX
+    exact ⟨X', hX', hl.2.2.2.1 hd⟩
+
+/-- **step preservation**: every enabled action of every thread keeps the invariant -/
+theorem inv_step {s s' : State} (a : Act) (hinv : Inv s) (hs : step s a = some s') : Inv s' := by
+  cases a with
+  | «begin» t al fp =>
+    simp only [step] at hs
+    have hfreshT : ∀ T : Thr, T.pc = .load → T.loaded = false → ThrOK s t T := by
+      intro T h1 h2
+      exact ⟨fun hc => by simp [h1, h2] at hc, fun h _ => by simp [h2] at h, fun hc => by simp [h1] at hc,
+             fun hc => by simp [h1] at hc⟩
+    cases hl : lookup s.thrs t with
+    | none =>
+      simp only [hl, Option.some.injEq] at hs; subst hs
+      exact inv_thr_only hinv (hfreshT _ rfl rfl)
+    | some T =>
+      simp only [hl] at hs
+      by_cases hd : T.pc = .done
+      · simp only [hd, if_true, Option.some.injEq] at hs; subst hs
+        exact inv_thr_only hinv (hfreshT _ rfl rfl)
+      · simp [hd] at hs
+  | step t =>
+    simp only [step] at hs
+    cases hl : lookup s.thrs t with
+    | none => simp [hl] at hs
+    | some T => simp only [hl] at hs; exact inv_stepThr hinv hl hs
+  | flush g del =>
+    simp only [step] at hs
+    cases hG : lookup s.grps g with
+    | none => simp [hG] at hs
+    | some G =>
+      simp only [hG] at hs
+      by_cases hp : G.published = true
+      · simp only [hp, if_true, Option.some.injEq] at hs; subst hs
+        exact inv_flush hinv hG hp del
+      · simp [hp] at hs
+  | mPick g =>
+    simp only [step] at hs
+    cases hm : s.mpc <;> cases hG : lookup s.grps g <;> simp only [hm, hG] at hs <;> try (simp at hs; done)
+    rename_i G
+    by_cases hp : G.published = true
+    · simp only [hp, if_true, Option.some.injEq] at hs; subst hs
+      exact inv_mpc_only hinv .check g (fun hc => by simp at hc) (fun _ => ⟨G, hG, hp⟩)
+    · simp [hp] at hs
+  | mStep =>
+    simp only [step] at hs
+    cases hm : s.mpc <;> cases hG : lookup s.grps s.mg <;> simp only [hm, hG] at hs <;> try (simp at hs; done)
+    · -- check
+      rename_i G
+      simp only [Option.some.injEq] at hs; subst hs
+      have hpub := hinv.mnt_pub (by simp [hm])
+      by_cases hd : G.destroyed = true
+      · simp only [hd, if_true]
+        exact inv_mpc_only hinv .stop s.mg (fun _ => ⟨G, hG, hd⟩) (fun _ => hpub)
+      · simp only [hd]
+        exact inv_mpc_only hinv .idle s.mg (fun hc => by simp at hc) (fun hc => by simp at hc)
+    · -- stop: cancel the group
+      rename_i G
+      simp only [Option.some.injEq] at hs; subst hs
+      obtain ⟨G1, hG1, hd⟩ := hinv.mnt_dead (Or.inl hm)
+      obtain ⟨G2, hG2, hp⟩ := hinv.mnt_pub (by simp [hm])
+      rw [hG] at hG1 hG2; cases hG1; cases hG2
+      have hle : GrpLe G { G with cancelled := true } := ⟨rfl, rfl, id, id, fun h => by rw [hp] at h; cases h⟩
+      have hgl := grpsLe_put (s := s) (s' := { setGrp s s.mg { G with cancelled := true } with mpc := .cad }) rfl hG hle
+      refine inv_of_env hinv rfl hgl
+        (privKept_put (g := s.mg) (G' := { G with cancelled := true }) rfl
+          (fun X hX => by rw [hG] at hX; cases hX; exact Or.inl hp)) (fresh_put_old hinv hG) ?_ ?_ ?_ ?_
+      · intro x X hx hpx hnd
+        have hx2 : lookup (put s.grps s.mg { G with cancelled := true }) x = some X := hx
+        rw [lookup_put] at hx2
+        show lookup s.map X.fp = some x
+        by_cases e : s.mg = x
+        · simp [e] at hx2; subst hx2; rw [hd] at hnd; cases hnd
+        · simp [e] at hx2; exact hinv.orph x X hx2 hpx hnd
+      · intro fp x hx
+        obtain ⟨X, hX, hfp, hpX⟩ := hinv.mapok fp x hx
+        obtain ⟨X', hX', hl⟩ := hgl x X hX
+        exact ⟨X', hX', by rw [hl.1, hfp], hl.2.2.2.1 hpX⟩
+      · intro _
+        exact ⟨{ G with cancelled := true }, by show lookup (put s.grps s.mg _) s.mg = _; simp, hd⟩
+      · intro _
+        exact ⟨{ G with cancelled := true }, by show lookup (put s.grps s.mg _) s.mg = _; simp, hp⟩
+    · -- cad: CompareAndDelete
+      rename_i G
+      obtain ⟨G1, hG1, hd⟩ := hinv.mnt_dead (Or.inr hm)
+      rw [hG] at hG1; cases hG1
+      by_cases hmap : lookup s.map G.fp = some s.mg
+      · simp only [hmap, if_true, Option.some.injEq] at hs; subst hs
+        refine inv_of_env hinv rfl (grpsLe_refl _ _ rfl) (privKept_refl _ _ _ rfl) hinv.fresh ?_ ?_
+          (fun hc => by simp at hc) (fun hc => by simp at hc)
+        · intro x X hx hpx hnd
+          have hm0 := hinv.orph x X hx hpx hnd
+          show lookup (erase s.map G.fp) X.fp = some x
+          rw [lookup_erase]
+          by_cases e : G.fp = X.fp
+          · rw [e] at hmap; rw [hmap] at hm0; cases hm0
+            have hx' : lookup s.grps s.mg = some X := hx
+            rw [hG] at hx'; cases hx'; rw [hd] at hnd; cases hnd
+          · simp [e, hm0]
+        · intro fp x hx
+          have hx2 : lookup (erase s.map G.fp) fp = some x := hx
+          rw [lookup_erase] at hx2
+          by_cases e : G.fp = fp
+          · simp [e] at hx2
+          · simp [e] at hx2; exact hinv.mapok fp x hx2
+      · simp only [hmap, if_false, Option.some.injEq] at hs; subst hs
+        exact inv_mpc_only hinv .idle s.mg (fun hc => by simp at hc) (fun hc => by simp at hc)
+
+/-- **induction over the schedule**: the invariant holds after any run from any state satisfying it -/
+theorem inv_run (acts : List Act) : ∀ {s s' : State}, Inv s → run s acts = some s' → Inv s' := by
+  induction acts with
+  | nil => intro s s' h hr; simp [run] at hr; subst hr; exact h
+  | cons a rest ih =>
+    intro s s' h hr
+    simp only [run] at hr
+    cases hs : step s a with
+    | none => simp [hs] at hr
+    | some s1 => simp only [hs] at hr; exact ih (inv_step a h hs) hr
 
 end AM.GroupMap
